@@ -163,3 +163,15 @@ func forall(lo, hi int, f func(int) bool) bool {
 //@   requires s.savepointURI == ""
 //@   atcall SnapshotForURI: ghostIsSnap(arg0) && exists(0, seqlen(ghostListing(s.fileStore)), func(i int) bool { return seqat(ghostListing(s.fileStore), i) == arg0 }) &&
 //@          forall(0, seqlen(ghostListing(s.fileStore)), func(i int) bool { return ghostIsSnap(seqat(ghostListing(s.fileStore), i)) ==> ghostSnapID(seqat(ghostListing(s.fileStore), i)) <= ghostSnapID(arg0) })
+//@   loop 0:
+//@     invariant latestCheckpointFile == "" ==> forall(0, idx_, func(p int) bool { return !ghostIsSnap(seqat(coll_, p)) })
+//@     invariant latestCheckpointFile != "" ==> ghostIsSnap(latestCheckpointFile) && latestID == ghostSnapID(latestCheckpointFile) &&
+//@               exists(0, idx_, func(p int) bool { return seqat(coll_, p) == latestCheckpointFile }) &&
+//@               forall(0, idx_, func(p int) bool { return ghostIsSnap(seqat(coll_, p)) ==> ghostSnapID(seqat(coll_, p)) <= latestID })
+
+// snapshotFileID decodes job-<pathSegment(id)>.snapshot; string and base64
+// handling are library code: its relation to the ghost naming functions is assumed.
+//@ func snapshotFileID
+//@   property C13
+//@   trusted
+//@   ensures result1 == ghostIsSnap(filePath) && (result1 ==> result0 == ghostSnapID(filePath) && filePath != "")
